@@ -1,10 +1,10 @@
 import Afkak.Monitor.C04
 import Afkak.Wire.Requests
 /-!
-# C04 — full-strength statements that are not (yet) proved
+# C04 — full-strength statements
 
-Statements, not theorems.  Each is listed in the `OPEN_STATEMENTS` block of `AfkakProps/C04.lean`;
-none is weakened.  The implementation is checked against every one of them on each run through the
+Statements, not theorems.  Those named `…_stmt` are PROVED in `AfkakProps/C04.lean` (theorem of the
+same name without the suffix); any other is listed in its `OPEN_STATEMENTS` block; none is weakened.  The implementation is checked against every one of them on each run through the
 monitor (`Afkak.Monitor.C04`), which is the very predicate the statements are about.
 -/
 namespace Afkak.Props.C04
@@ -15,50 +15,50 @@ set_option synthInstance.maxSize 100000
 /-- Produce v0/v1/v2: the frame parses to the header with the clamped version, acks, timeout, and
     the payloads nested by topic, every message with its magic, attributes, timestamp, key, value
     (null ≠ empty) and a checksum that verifies, in the caller's per-partition order. -/
-def C04_produce_conforms : Prop :=
+def C04_produce_conforms_stmt : Prop :=
   ∀ (ext : Ext) (cid : Bytes) (corr : Int) (ps : List ProduceReq) (acks timeout ver : Int) (frame : Bytes),
     encodeProduceRequest ext cid corr ps acks timeout ver = .ok frame →
     Monitor.C04.produce ext.crc ext.nowMs cid corr ps acks timeout ver frame ≠ .fail
 
-def C04_fetch_conforms : Prop :=
+def C04_fetch_conforms_stmt : Prop :=
   ∀ (cid : Bytes) (corr : Int) (ps : List FetchReq) (wait minb ver : Int) (frame : Bytes),
     encodeFetchRequest cid corr ps wait minb ver = .ok frame →
     Monitor.C04.fetch cid corr ps wait minb ver frame ≠ .fail
 
-def C04_list_offsets_conforms : Prop :=
+def C04_list_offsets_conforms_stmt : Prop :=
   ∀ (cid : Bytes) (corr : Int) (ps : List OffsetReq) (frame : Bytes),
     encodeOffsetRequest cid corr ps = .ok frame → Monitor.C04.listOffsets cid corr ps frame ≠ .fail
 
-def C04_offset_commit_conforms : Prop :=
+def C04_offset_commit_conforms_stmt : Prop :=
   ∀ (cid : Bytes) (corr : Int) (g : Option Bytes) (gen : Int) (c : Option Bytes) (ps : List OffsetCommitReq) (frame : Bytes),
     encodeOffsetCommitRequest cid corr g gen c ps = .ok frame →
     Monitor.C04.offsetCommit cid corr g gen c ps frame ≠ .fail
 
-def C04_offset_fetch_conforms : Prop :=
+def C04_offset_fetch_conforms_stmt : Prop :=
   ∀ (cid : Bytes) (corr : Int) (g : Option Bytes) (ps : List OffsetFetchReq) (frame : Bytes),
     encodeOffsetFetchRequest cid corr g ps = .ok frame → Monitor.C04.offsetFetch cid corr g ps frame ≠ .fail
 
 /-- the subscription a member sends inside JoinGroup -/
-def C04_subscription_conforms : Prop :=
+def C04_subscription_conforms_stmt : Prop :=
   ∀ (ver : Int) (topics : List (Option Bytes)) (ud : Option Bytes) (data : Bytes),
     encodeJoinGroupProtocolMetadata ver topics ud = .ok data → Monitor.C04.subscription ver topics ud data ≠ .fail
 
 /-- the assignment the leader sends inside SyncGroup -/
-def C04_assignment_conforms : Prop :=
+def C04_assignment_conforms_stmt : Prop :=
   ∀ (ver : Int) (asg : List (Option Bytes × List Int)) (ud : Option Bytes) (data : Bytes),
     encodeSyncGroupMemberAssignment ver asg ud = .ok data → Monitor.C04.assignment ver asg ud data ≠ .fail
 
 /-- grouping by topic keeps every payload exactly once and in the caller's relative order:
-    with distinct (topic, partition) keys the grouped structure is the independent `regroup`. -/
-def C04_order_preserved : Prop :=
+    with non-null topics and distinct (topic, partition) keys the grouped structure is the
+    independent `regroup` (topics by first occurrence, payloads of a topic in the order given). -/
+def C04_order_preserved_stmt : Prop :=
   ∀ {α : Type} (topic : α → Option Bytes) (partition : α → Int) (xs : List α) (l : List (Bytes × (Int × α))),
     keyed topic partition (fun x => some x) xs = some l →
-    (groupByTopicPartition topic partition xs).map (fun e => (e.1, e.2)) =
-      (regroup l).map (fun e => (some e.1, e.2))
+    groupByTopicPartition topic partition xs = (regroup l).map (fun e => (some e.1, e.2))
 
 /-- every message the encoder emits carries the checksum of exactly the bytes after the checksum
     field (so it verifies under the grammar's message codec) -/
-def C04_crc_valid : Prop :=
+def C04_crc_valid_stmt : Prop :=
   ∀ (ext : Ext) (m : Message) (bytes : Bytes), encodeMessage ext m = .ok bytes →
     ∃ sm, specMsg ext.nowMs m = some sm ∧ ((Spec.message ext.crc).valid sm = true → (Spec.message ext.crc).dec bytes = some sm)
 
